@@ -36,11 +36,11 @@ def _race_reports(out):
 
 def run(ctx):
     # 1. the contract model satisfies the property (exhaustive over the full alphabet)
-    for cfg in ctx.pick(["MC_Contract"], ["MC_Contract", "MC_Contract6", "MC_TwoSeats"]):
+    for cfg in ctx.pick(["MC_Contract"], ["MC_Contract_T", "MC_TwoSeats"]):
         r = ctx.tlc(SPEC, "MC_SigningDone", cfg=cfg, coverage=True, label=cfg, timeout=1500)
         ctx.require_coverage(r, ["DoDeliver", "Check", "Timeout"], cfg)
     # the contract also holds when the waiter's read is not atomic (given only included members are stored)
-    hc = ctx.pick("MC_HazardContract", "MC_HazardContract5")
+    hc = ctx.pick("MC_HazardContract", "MC_HazardContract_T")
     r = ctx.tlc(SPEC, "MC_SigningDone", cfg=hc, coverage=True, label=hc, timeout=1500)
     ctx.require_coverage(r, ["DoDeliver", "ReadLen", "DoVisit", "FinishIter", "Timeout"], hc)
     # 2. the variant without the included-member test violates it: TLC must find the counterexample
@@ -83,7 +83,8 @@ def run(ctx):
             if ok:
                 ctx.traces_validated += nruns
             else:
-                hw = ctx.longest_prefix(tr)
+                mh = re.findall(r'"VERIF_HWM",\s*(\d+)', tr.out)
+                hw = int(mh[-1]) if mh else None
                 if hw is None and tr.violated and tr.violated != "Postcondition":
                     # an invariant of the module failed on a state of the real trace
                     ctx.violation("trace:invariant:%s" % tr.violated,
